@@ -1,6 +1,6 @@
 (* C04 — one-shot runs terminate: no lost wake-up, no deadlock, whatever the graph.
    Property theorems only; proofs are in Proofs/SysWitness.v, Proofs/SysRoot.v (and Proofs/SysLive*.v). *)
-From Zinoma.Proofs Require Import SysWitness SysLive4.
+From Zinoma.Proofs Require Import SysWitness SysLive4 SysTerm.
 
 (* The pinned handlers (before the FX1 repair, fx1 = false) lose a wake-up: `svc` service, `usesvc` build depending on it,
    `zinoma usesvc svc`. The schedule ends in a state where nothing can happen any more, no script failed, and the root is
@@ -38,3 +38,14 @@ Theorem C04_no_lost_wakeup :
     forall s, reachable true false g roots s -> quiescent true false s = true -> (forall t, ObFail t ∉ hist s) ->
     ph s <> PRun.
 Proof. exact no_lost_wakeup. Qed.
+
+(* ... and therefore a one-shot run in which nothing failed, once nothing can happen any more, has either exited or is
+   waiting for a termination signal with a requested service alive (C11_keepalive_iff says when). *)
+Theorem C04_quiescent_done :
+  forall (g : graph) (roots : list tid) (rank : tid -> nat) (s : sys),
+    (forall t k deps d, g !! t = Some (k, deps) -> d ∈ deps -> is_Some (g !! d)) ->
+    (forall r, r ∈ roots -> is_Some (g !! r)) ->
+    (forall t k deps d, g !! t = Some (k, deps) -> d ∈ deps -> rank d < rank t) ->
+    reachable true false g roots s -> quiescent true false s = true -> (forall t, ObFail t ∉ hist s) ->
+    ph s = PWaitTerm \/ exists st, ph s = PExited st.
+Proof. exact quiescent_done. Qed.
